@@ -38,6 +38,11 @@ type seriesT struct {
 
 var itemTypes = []string{"L", "A", "J", "W", "B", "BOOLEAN", "I1", "I2", "I4", "I8", "U1", "U2", "U4", "U8", "F4", "F8"}
 
+var hintEdges = []string{"1", "2147483647", "2147483648", "4294967295", "4294967296", "9223372036854775806", "9223372036854775807", "9223372036854775808", "18446744073709551615", "18446744073709551616"}
+
+// one valid value of each item type
+var hintVal = map[string]string{"L": "<U1 1>", "A": `"x"`, "J": `"x"`, "W": `"x"`, "B": "1", "BOOLEAN": "T", "I1": "1", "I2": "1", "I4": "1", "I8": "1", "U1": "1", "U2": "1", "U4": "1", "U8": "1", "F4": "1", "F8": "1"}
+
 var hintValues = []string{"0", "1", "65536", "16777216", "2147483647", "2147483648", "4294967296", "9223372036854775807", "9223372036854775808"}
 
 func pow10s(from, to int, extra ...string) []string {
@@ -107,6 +112,16 @@ func allSeries(thorough bool) []seriesT {
 		ss = append(ss, seriesT{"sizehint", ty + "/min..max", "nonstrict", rangeHints, false})
 		ss = append(ss, seriesT{"sizehint", ty + "/..max", "strict", rangeHints, false})
 	}
+	// a hint in front of an item that HAS a value: the value scanners (quoted-string fast paths,
+	// number lists, child items) do arithmetic on the hint that an empty item never reaches; the
+	// values sit on the boundaries of every integer width the hint may pass through
+	for _, ty := range itemTypes {
+		for _, m := range modesFor(ty == "A") {
+			ss = append(ss, seriesT{"sizehint", ty + "/val", m, hintEdges, false})
+		}
+		ss = append(ss, seriesT{"sizehint", ty + "/min..max+val", "nonstrict", hintEdges, false})
+		ss = append(ss, seriesT{"sizehint", ty + "/..max+val", "strict", hintEdges, false})
+	}
 	return ss
 }
 
@@ -122,6 +137,12 @@ func familyText(family, variant, nStr string) (string, bool) {
 			return hdr + "<" + ty + "[0.." + nStr + "]>.", true
 		case "..max":
 			return hdr + "<" + ty + "[.." + nStr + "]>.", true
+		case "val":
+			return hdr + "<" + ty + "[" + nStr + "] " + hintVal[ty] + ">.", true
+		case "min..max+val":
+			return hdr + "<" + ty + "[0.." + nStr + "] " + hintVal[ty] + ">.", true
+		case "..max+val":
+			return hdr + "<" + ty + "[.." + nStr + "] " + hintVal[ty] + ">.", true
 		}
 		return "", false
 	}
